@@ -89,6 +89,69 @@ READY = {
               'once to survivors, weakref dead after gc.',
               'reference-drop fault injection at every callback position + '
               'weakref liveness + delivery log'),
+    'C11': _e('After every operation of random __setitem__/clear histories '
+              '(composite keys, kind overwrites, populator-style layering) the '
+              'three access forms are compared for every path of a nested-dict '
+              'model, back-links of every reachable node, name exclusivity '
+              'over all ChainMap layers, visible-name sets and the get/[] '
+              'contract on absent and too-long paths.',
+              'history + nested-dict reference model, structural walk of the '
+              'live tree at every quiescent point'),
+    'C12': _e('Counting handles with fresh-object-per-load values (incl. '
+              'falsy/hostile ones); `cached` read before every access '
+              'predicts whether the load counter moves; identity of the '
+              'returned object within an epoch; all access paths incl. static '
+              'maps and Loop.switch clear flags.',
+              'load counters + identity oracle per access, epoch model'),
+    'C13': _e('One log of process/callback/request entries over scripted '
+              'switch sequences (all scripts of <=2 requests over 2 handles '
+              'enumerated); trace checker for frame abandonment, which '
+              'instance runs, freshness under clear flags, on_switch_out/in '
+              'exactly-once and ordering, held events of left worlds.',
+              'offline trace checker over one labelled event log; '
+              'enumeration of small switch scripts'),
+    'C14': _e('Fault enumeration over every (iteration, processor) position '
+              'of small frame scripts x terminating fault kinds x optional '
+              'earlier switch x restarts; dt recomputed exactly from the '
+              "clock's own read log; loop state read after every start.",
+              'fault injection at every frame position + exact recomputation '
+              'from the recorded clock reads'),
+    'C15': _e('Recorder classes log every construction by identity/value; '
+              'generated descriptions (both entry points, handle stored under '
+              'plain and composite keys) are interpreted independently and '
+              'compared with the loaded world, its processors order, argument '
+              'substitution and the load-time lifecycle order.',
+              'recorder fixtures + independent interpreter of the '
+              'description (differential oracle)'),
+    'C16': _e('Real temporary directory trees; independent os.walk oracle; '
+              'after every population reachability, factory arguments, '
+              'sub-map structure, absence of unexpected keys over all '
+              'ChainMap layers and the nest/replace conflict rule are '
+              'checked; ValueError / skip for bad rule paths.',
+              'differential oracle (os.walk) + structural walk of the '
+              'populated map, recorder factory'),
+    'C17': _e('The live ResourceMap is the oracle for its snapshot: identity '
+              'of loaded resources and handles for every path through item / '
+              'attribute / get access, equal name sets, absent names raise, '
+              'every setattr/delattr attempt on every node raises and the '
+              'comparison is repeated afterwards.',
+              'mirror (differential) oracle + mutation attempts on every '
+              'node'),
+    'C18': _e('Randomised identity testing of the real operators on exact '
+              'rationals against nested-loop textbook definitions with a '
+              'Schwartz-Zippel error bound per identity, exhaustive swizzles, '
+              'region-targeted sampling of limit/clamp/singular branch, float '
+              'tier with stated tolerance. Sampling with a quantified bound, '
+              'not the polynomial-identity proof the quantifier mentions.',
+              'exact-arithmetic differential testing (Fractions through the '
+              'unmodified classes) + exhaustive swizzle enumeration'),
+    'C19': _e('Twin-world differential run (World calls vs every shorthand '
+              'form and controller kind) with label-wise comparison of return '
+              'values, full query sweeps and lifecycle logs after every step; '
+              'prototype source priority over all source subsets for small '
+              'n; OnUpdateProcessor relay with identity of dt.',
+              'twin-world differential monitor; enumerated prototype source '
+              'combinations'),
     'C20': _e('Monitors every listener notification and reads all properties '
               'of all transforms back after every assignment; oracle = '
               'exactly-once per matching listener, value == read-back, exact '
